@@ -46,7 +46,12 @@ def plan(tier: str) -> dict:
 def check_stream(cfg: dict, stmts: list, ns: list, max_table: int | None = None):
     """-> (witness|None, refdec.Result|None)"""
     try:
-        data = pj.serialize(cfg, stmts, ns)
+        if cfg.get("failed_attempt_first") and stmts and not ns and cfg["entry"] != "sink_serialize":
+            # the caller's ONE options object was first used for a write that aborted with rows still buffered
+            from . import c01, c02
+            data = (c01 if cfg["integration"] == "generic" else c02).serialize_after_failed_attempt(cfg, stmts)
+        else:
+            data = pj.serialize(cfg, stmts, ns)
     except Exception as e:  # noqa: BLE001
         return {"clause": "serializer-raised", "summary": f"{type(e).__name__}: {e}"}, None
     try:
@@ -172,6 +177,9 @@ def run_shard(ctx):
                              "bindings_per_sink": [len(n) for n in nss]})
             continue
         cfg, stmts, ns = workloads.serializer_case(rng, max_len=50 if ctx.tier == "quick" else rng.choice([50, 50, 300]))
+        if rng.random() < 0.1 and stmts and not ns:
+            cfg["failed_attempt_first"] = rng.randint(1, len(stmts))
+            ctx.observe("retry-after-failed-attempt-with-same-options-object")
         if rng.random() < 0.2:
             # undersized tables: the serializer may refuse (raise); if it writes, the bytes must still be valid
             n, p, d = cfg["preset"]
